@@ -6,7 +6,11 @@ import (
 	"strings"
 
 	"github.com/jf-tech/omniparser"
+	"github.com/jf-tech/omniparser/customfuncs"
+	"github.com/jf-tech/omniparser/extensions/omniv21"
+	v21 "github.com/jf-tech/omniparser/extensions/omniv21/customfuncs"
 	"github.com/jf-tech/omniparser/idr"
+	"github.com/jf-tech/omniparser/transformctx"
 
 	"verif/mc/core"
 	"verif/mc/hx"
@@ -17,7 +21,8 @@ import (
 // schedule exploration under the cooperative scheduler + free-running race pass.
 
 type c14Thread struct {
-	Kind   string            `json:"kind"`   // transform | newschema
+	Kind   string            `json:"kind"` // transform | newschema | transform-nil-ctx (NewTransform without a context, input named Name)
+	Name   string            `json:"input_name,omitempty"`
 	Schema int               `json:"schema"` // index into the scenario's schema list
 	Input  string            `json:"input,omitempty"`
 	Ext    map[string]string `json:"externals,omitempty"` // this thread's external properties
@@ -96,6 +101,21 @@ func c14Scenarios(quick bool) []c14Scenario {
 		{Name: "argument-leak-probe-shared-schema", Schemas: []string{job["js-argument-leak-probe"].Schema}, Threads: []c14Thread{
 			{Kind: "transform", Schema: 0, Input: `[{"x":"1","k":"a"},{"x":"boom","k":"b"}]`}, {Kind: "transform", Schema: 0, Input: `[{"x":"boom","k":"c"},{"x":"4","k":"d"}]`}}},
 	}
+	// xpath_dynamic: the expression comes with the record, so the two transforms compile and run DIFFERENT
+	// expressions at the same place of one shared schema (whatever is remembered about "the last expression"
+	// is shared state)
+	dyn := `{` + c10Hdr("xml") + `,"transform_declarations":{"FINAL_OUTPUT":{"xpath":"/r/o","object":{"v":{"xpath_dynamic":{"xpath":"e"}},"w":{"xpath_dynamic":{"custom_func":{"name":"concat","args":[{"xpath":"e"},{"const":"[1]"}]}}}}}}}`
+	sc = append(sc, c14Scenario{Name: "xpath-dynamic-different-expressions-shared-schema", Schemas: []string{dyn}, Threads: []c14Thread{
+		{Kind: "transform", Schema: 0, Input: `<r><o><e>N</e><N>1</N><J>x</J></o><o><e>J</e><N>2</N><J>y</J></o></r>`},
+		{Kind: "transform", Schema: 0, Input: `<r><o><e>J</e><N>3</N><J>z</J></o><o><e>M</e><N>4</N><M>m</M></o></r>`}}})
+	// no context given to NewTransform, inputs under different names, each with a record that fails (the
+	// failure's text names the input)
+	noCtx := `{` + c10Hdr("csv") + `,"file_declaration":{"delimiter":",","data_row_index":1,"columns":[{"name":"N"}]},"transform_declarations":{"FINAL_OUTPUT":{"object":{"n":{"xpath":"N","type":"int"},"input":{"custom_func":{"name":"ctxname"}}}}}}`
+	sc = append(sc, c14Scenario{Name: "no-context-different-input-names", Schemas: []string{noCtx}, Threads: []c14Thread{
+		{Kind: "transform-nil-ctx", Name: "first-input", Schema: 0, Input: "1\nx\n2\n"},
+		{Kind: "transform-nil-ctx", Name: "second-input", Schema: 0, Input: "y\n3\n"}}},
+		c14Scenario{Name: "context-per-transform-different-input-names", Schemas: []string{noCtx}, Threads: []c14Thread{
+			{Kind: "transform", Schema: 0, Input: "1\nx\n2\n"}, {Kind: "transform", Schema: 0, Input: "y\n3\n"}}})
 	// multi-line envelopes of the old fixed-length reader (per-envelope bookkeeping while lines are read)
 	flRows := `{` + c10Hdr("fixed-length") + `,"file_declaration":{"envelopes":[{"by_rows":2,"columns":[{"name":"N","start_pos":1,"length":2},{"name":"J","start_pos":1,"length":1,"line_pattern":"^[a-z]"}]}]},"transform_declarations":{"FINAL_OUTPUT":{"object":{"n":{"xpath":"N","type":"int"},"j":{"xpath":"J"}}}}}`
 	flHF := `{` + c10Hdr("fixed-length") + `,"file_declaration":{"envelopes":[{"name":"E","by_header_footer":{"header":"^H","footer":"^F"},"columns":[{"name":"N","start_pos":2,"length":2},{"name":"J","start_pos":1,"length":1,"line_pattern":"^[a-z]"}]}]},"transform_declarations":{"FINAL_OUTPUT":{"object":{"n":{"xpath":"N","type":"int"},"j":{"xpath":"J"}}}}}`
@@ -149,10 +169,46 @@ func c14Scenarios(quick bool) []c14Scenario {
 	return sc
 }
 
+// c14Ext registers one caller function, ctxname, that returns the input name its transform context carries.
+var c14Ext = omniparser.Extension{
+	CreateSchemaHandler: omniv21.CreateSchemaHandler,
+	CustomFuncs: customfuncs.Merge(customfuncs.CommonCustomFuncs, v21.OmniV21CustomFuncs, customfuncs.CustomFuncs{
+		"ctxname": func(ctx *transformctx.Ctx) (string, error) {
+			if ctx == nil {
+				return "no context", nil
+			}
+			return ctx.InputName, nil
+		}}),
+}
+
 func c14Solo(schema omniparser.Schema, th c14Thread, schemaText string) string {
 	if th.Kind == "newschema" {
 		_, err, ps := hx.NewSchema("s", schemaText)
 		return fmt.Sprintf("newschema err=%v %s", err, ps)
+	}
+	if th.Kind == "transform-nil-ctx" {
+		// a caller that passes no context: whatever NewTransform does with that (today: it panics), it does the
+		// same whether or not another Transform is being created or read at the same time
+		var out []string
+		pv, site := core.Safe(func() {
+			tr, err := schema.NewTransform(th.Name, strings.NewReader(th.Input), nil)
+			if err != nil {
+				out = append(out, "newtransform: "+err.Error())
+				return
+			}
+			for i := 0; i < 100; i++ {
+				b, err := tr.Read()
+				st := hx.Classify(b, err)
+				out = append(out, st.String())
+				if st.Terminal() {
+					return
+				}
+			}
+		})
+		if pv != nil {
+			out = append(out, "panic @ "+site)
+		}
+		return strings.Join(out, "\n")
 	}
 	r := hx.Run(schema, strings.NewReader(th.Input), hx.Opts{MaxReads: 100, Externals: th.Ext})
 	return hx.Transcript(r.Steps) + r.NewTransformErr + r.PanicSite
@@ -163,7 +219,7 @@ func c14Run(sc c14Scenario, x *core.Exec) (results []string, panics string, dead
 	resetProcessState()
 	schemas := make([]omniparser.Schema, len(sc.Schemas))
 	for i, t := range sc.Schemas {
-		s, err, _ := hx.NewSchema("s", t)
+		s, err, _ := hx.NewSchema("s", t, c14Ext)
 		if err != nil {
 			return nil, "", false, "schema rejected: " + err.Error()
 		}
@@ -195,7 +251,7 @@ func c14Expected(sc c14Scenario) ([]string, string) {
 	var out []string
 	for _, th := range sc.Threads {
 		resetProcessState()
-		s, err, _ := hx.NewSchema("s", sc.Schemas[th.Schema])
+		s, err, _ := hx.NewSchema("s", sc.Schemas[th.Schema], c14Ext)
 		if err != nil {
 			return nil, "schema rejected: " + err.Error()
 		}
@@ -241,7 +297,7 @@ func init() {
 			"only interleavings at the hooked operations are explored; unsynchronised plain memory accesses are the race detector's job (free-running pass, not exhaustive over schedules)",
 			"goja VMs, encoding/* decoders and the hashicorp LRU are treated as atomic between scheduling points",
 		},
-		BudgetQuick: 180, BudgetThorough: 1600,
+		BudgetQuick: 400, BudgetThorough: 1600,
 		Run: func(c *core.Ctx) {
 			bound := 2
 			for si, sc := range c14Scenarios(c.Quick()) {
@@ -313,7 +369,7 @@ func init() {
 			}
 			if c.Shard == 0 {
 				for _, scn := range []string{"transforms", "newschema"} {
-					if msg := runRaceBinary(scn); msg != "" {
+					if msg := runRaceBinary(scn, c.Alive); msg != "" {
 						if strings.HasPrefix(msg, "skip:") {
 							c.Note("free-running -race pass not run: " + msg)
 						} else {
